@@ -5,6 +5,7 @@ import core, hashrec as H
 from core import B
 
 def run(ctx):
+    ctx.claim_exhaustive = False      # keys / messages / parameters are sampled over an enumerated grid; only the spec-level models are exhaustive
     rnd = ctx.rnd; big = ctx.big()
     ctx.model_check('mc/MC_Hmac.tla', what='MC_Hmac (key register, symbolic hash)')
     from crysp.hmac import HMAC
